@@ -1,6 +1,9 @@
 """C17 — HSTRP/RRS datagram handler: all paths of the real handler, effects = datagrams sent."""
 from __future__ import annotations
 
+import ast
+import re
+
 from sa.bitabs import ABits, AEnum, AExt, AInt, AObj, AOpq, Abort, F, Interp, PartialRaise, PathRaise, explore
 from sa.model import AnalysisError, EnumMember
 
@@ -31,7 +34,45 @@ def make_handler(I, repo, cls_mod, cls_name):
     conn = AInt([I.atom_form(("connected", 0))], isbool=True)
     h.attrs["hstrp_connected"] = conn
     h.attrs["sn"] = AInt([I.atom_form(("own_sn", i)) for i in range(16)])
+    havoc_state(I, repo, ci, h)
     return ci, h, conn
+
+
+MODELLED_STATE = {"transport", "hstrp_connected", "sn", "registry"}
+
+
+def havoc_state(I, repo, ci, h):
+    """the rules are meant for ANY history: every other attribute that a method of the handler (outside __init__) assigns holds, at
+    the entry of the analysed step, either its initial value or an arbitrary value of its annotated type (a remembered sequence
+    number, a flag ...).  An attribute that no method ever reads cannot influence a decision; one of a type that is not modelled
+    makes the analysis impossible (exit 2), never a silent pass"""
+    written, read, ann = {}, set(), {}
+    for c in repo.mro(ci):
+        for m in c.methods.values():
+            for n in ast.walk(m.node):
+                if isinstance(n, ast.Attribute) and isinstance(n.value, ast.Name) and n.value.id == "self":
+                    if isinstance(n.ctx, ast.Store):
+                        if m.name != "__init__":
+                            written.setdefault(n.attr, m)
+                    elif isinstance(n.ctx, ast.Load):
+                        read.add(n.attr)
+                if isinstance(n, ast.AugAssign) and isinstance(n.target, ast.Attribute) and isinstance(n.target.value, ast.Name) and n.target.value.id == "self":
+                    read.add(n.target.attr)
+                if isinstance(n, ast.AnnAssign) and isinstance(n.target, ast.Attribute) and isinstance(n.target.value, ast.Name) and n.target.value.id == "self":
+                    ann.setdefault(n.target.attr, ast.unparse(n.annotation))
+    for name, m in sorted(written.items()):
+        if name in MODELLED_STATE or name not in read:
+            continue
+        a = ann.get(name, "")
+        words = set(re.findall(r"[A-Za-z_]+", a)) - {"Optional", "Union", "None"}
+        if I.st.choose(f"state:{name}:initial"):
+            continue
+        if words == {"bool"}:
+            h.attrs[name] = AInt([I.atom_form(("state", name, 0))], isbool=True)
+        elif words == {"int"}:
+            h.attrs[name] = AInt([I.atom_form(("state", name, i)) for i in range(16)])
+        else:
+            raise AnalysisError(f"handler state {ci.name}.{name} (assigned in {m.qualname}, annotated {a or 'nothing'}) is read by the handler and is of a type the history abstraction does not model")
 
 
 DECODER_EXCEPTIONS = ("AssertionError", "ValueError", "KeyError", "IndexError")
